@@ -444,3 +444,20 @@ package spine
 //@   loop 0 invariant only-keys: forall i int :: 0 <= i && i < len(keys) ==> has(c.reqMsgCache, cast(model.MsgCounterType, keys[i]))
 //@   loop 0 invariant frame: unchangedPreOld(uint64) && unchangedPreOld([]uint64)
 //@   loop 0 invariant keys-new: fresh(keys)
+
+//@ func (*Sender).Request
+//@   requires c != nil && c.reqMsgCache != nil && len(c.reqMsgCache) <= 21
+//@   let W = c.writeHandler
+//@   let K = wiren[W]
+//@   let H = c.hashForMessage(destinationAddress, cmd)
+//@   define dup = len(H) > 0 && exists k model.MsgCounterType :: has(c.reqMsgCache, k) && c.reqMsgCache[k] == H
+//@   ensures[C13] withheld-iff-duplicate: old(dup) ==> wiren == old(wiren) && result1 == nil && result0 != nil && old(has(c.reqMsgCache, *result0)) && old(c.reqMsgCache[*result0]) == H && c.msgNum == old(c.msgNum)
+//@   ensures[C13] withheld-keeps-cache: old(dup) ==> forall k model.MsgCounterType :: has(c.reqMsgCache, k) == old(has(c.reqMsgCache, k)) && c.reqMsgCache[k] == old(c.reqMsgCache[k])
+//@   ensures[C13] sent-otherwise: !old(dup) && result1 == nil ==> wiren == store(old(wiren), W, K + 1) && classifierOf(sent(W, K)) == cmdClassifier && sent(W, K).Header.AddressSource == senderAddress && sent(W, K).Header.AddressDestination == destinationAddress && sent(W, K).Payload.Cmd == cmd && *sent(W, K).Header.MsgCounter == old(c.msgNum) + 1 && ((sent(W, K).Header.AckRequest != nil) <==> ackRequest)
+//@   ensures[C13] fresh-counter: !old(dup) ==> result0 != nil && *result0 == old(c.msgNum) + 1 && c.msgNum == old(c.msgNum) + 1
+//@   ensures[C13] logged: !old(dup) && result1 == nil ==> sentctr[W][K] == old(c.msgNum) + 1
+//@   ensures[C13] remembered: !old(dup) && result1 == nil && len(H) > 0 ==> has(c.reqMsgCache, old(c.msgNum) + 1) && c.reqMsgCache[old(c.msgNum) + 1] == H
+//@   ensures[C13] not-sent-on-error: result1 != nil ==> wiren == old(wiren)
+//@   ensures[C13] bounded: len(c.reqMsgCache) <= 21
+//@   ensures[C13] older: forall k int :: k < K ==> wiremsg[W][k] == old(wiremsg)[W][k] && sentctr[W][k] == old(sentctr)[W][k]
+//@   modifies @WIRE, c.msgNum, map(gomap[model.MsgCounterType]string), held
